@@ -181,6 +181,60 @@ def judge(b: Batch, base, tree, spelling, as_bytes, empty_src, comp):
         shutil.rmtree(dest_abs, ignore_errors=True)
 
 
+def judge_vanish(b: Batch, base, tree, as_bytes, r):
+    """A sub-directory vanishes between being listed in its parent and being listed itself (transient lookup failure): every
+    descendant outside that sub-directory is still named exactly once, with its real path."""
+    from watchdog.events import generate_sub_created_events, generate_sub_moved_events
+
+    dirs = sorted(p for p, k in tree if k is True)
+    if len(dirs) < 2:
+        return
+    victim = r.choice(dirs)
+    for which in ("moved", "created"):
+        dest_abs = os.path.join(base, "b")
+        if os.path.exists(dest_abs):
+            shutil.rmtree(dest_abs)
+        build(dest_abs, tree)
+        src, dest = os.path.join(base, "a"), dest_abs
+        if as_bytes:
+            src, dest = os.fsencode(src), os.fsencode(dest)
+        vict_abs = os.path.join(dest_abs, victim)
+        real_scandir = os.scandir
+        fired = []
+
+        def scandir(path=".", _real=real_scandir):
+            if not fired and os.fsdecode(path) == vict_abs:
+                fired.append(1)
+                shutil.rmtree(vict_abs)
+            return _real(path)
+
+        os.scandir = scandir
+        try:
+            got = list(generate_sub_moved_events(src, dest)) if which == "moved" else list(generate_sub_created_events(dest))
+            exc = None
+        except Exception as e:  # noqa: BLE001
+            got, exc = [], e
+        finally:
+            os.scandir = real_scandir
+        b.case()
+        if not fired:
+            shutil.rmtree(dest_abs, ignore_errors=True)
+            continue
+        b.count("vanish_cases_judged")
+        b.nontrivial(["vanish", sorted(tree, key=str), victim, which, as_bytes])
+        wit = {"tree": sorted(tree, key=str), "victim": victim, "which": which, "bytes": as_bytes}
+        if exc is not None:
+            b.violation("sub-events-raised", f"generate_sub_{which}_events raised {type(exc).__name__}: {exc} when {victim} vanished during the walk", witness=wit)
+        else:
+            paths = Counter(os.fsdecode(e.dest_path if which == "moved" else e.src_path) for e in got)
+            want = {os.path.join(dest_abs, p) for p, _k in tree if not p.startswith(victim + "/")}
+            missing = sorted(w for w in want if paths.get(w, 0) != 1)
+            extra = sorted(p for p in paths if p not in want and not p.startswith(vict_abs + os.sep))
+            if missing or extra:
+                b.violation(f"sub-{which}-mismatch", f"{victim} vanished during the walk: descendants outside it not named exactly once: {missing[:4]} / unexpected {extra[:4]}", witness=wit)
+        shutil.rmtree(dest_abs, ignore_errors=True)
+
+
 REKEY_BIAS = {"mkdir": 4, "makedirs": 3, "rename_dir": 8, "rename_file": 4, "create": 3, "move_in": 2, "move_out": 1.5, "rmtree": 1, "rmdir": 1,
               "unlink": 1, "write": 0.3, "chmod": 0.2, "rename_replace": 1}
 
@@ -327,6 +381,8 @@ def run_batch(spec):
                         else:
                             tree.add((ln, "nowhere"))
                 judge(b, base, frozenset(tree), r.choice(["abs", "rel", "dot", "dotdot", "slashes"]), r.random() < 0.4, r.random() < 0.15, r.choice(COMPS))
+                if r.random() < 0.3:
+                    judge_vanish(b, base, frozenset(t for t in tree if not isinstance(t[1], str)), r.random() < 0.3, r)
         elif spec["kind"] == "rekey":
             run_rekey(b, spec["seed"], spec["j"], spec["n"])
         elif spec["kind"] == "rekey1":
